@@ -176,7 +176,7 @@ pub fn generate(rng: &mut Rng, tier: Tier, emit: &mut dyn FnMut(String)) {
     let quick = tier == Tier::Quick;
     // hook level: exhaustive over 3 request ids / 3 stream ids
     let alpha = ["a0", "a1", "a2", "o0", "o1", "o2", "l0", "l1", "l2"];
-    gen_exhaustive(&alpha, if quick { 4 } else { 5 }, "map", emit);
+    gen_exhaustive(&alpha, if quick { 5 } else { 6 }, "map", emit);
     for _ in 0..(if quick { 2_000 } else { 50_000 }) {
         let len = match rng.below(4) {
             0 => rng.range(1, 12),
@@ -201,9 +201,11 @@ pub fn generate(rng: &mut Rng, tier: Tier, emit: &mut dyn FnMut(String)) {
     }
     // connection level: exhaustive short schedules, then random ones
     let calpha = ["s", "S", "c0", "c1", "p0", "r0", "r1", "u0", "u1", "g", "G", "x"];
-    for wc in ["0", "1"] {
-        gen_exhaustive(&calpha, if quick { 3 } else { 4 }, &format!("conn {}", wc), emit);
-    }
+    gen_exhaustive(&calpha, if quick { 3 } else { 4 }, "conn 0", emit);
+    gen_exhaustive(&calpha, if quick { 4 } else { 5 }, "conn 1", emit);
+    // longer schedules over a smaller alphabet (cancel after the response, late notices, id reuse)
+    let calpha2 = ["s", "S", "c0", "p0", "r0", "u0"];
+    gen_exhaustive(&calpha2, if quick { 6 } else { 7 }, "conn 1", emit);
     // all schedules that start with two submissions (so that answers can be out of order)
     gen_exhaustive(&calpha, if quick { 3 } else { 4 }, "conn 1 s;s", emit);
     for _ in 0..(if quick { 6_000 } else { 120_000 }) {
@@ -457,9 +459,13 @@ pub(crate) struct ConnSim {
     pub futures: Vec<Option<ReqFuture>>,
     pub outcomes: Vec<Option<String>>,
     /// every whole response frame the server has sent: (stream, body)
-    pub sent: Vec<(i16, Vec<u8>)>,
+    /// every whole response frame the server has sent: (addressee = tag of the unanswered request frame that
+    /// the server had read on that stream at that moment, stream, body)
+    pub sent: Vec<(Option<Vec<u8>>, i16, Vec<u8>)>,
     /// raw bytes sent with `b` since the last frame boundary
     pub raw_tail: Vec<u8>,
+    /// set when the server closed the stream or sent a frame on a stream nobody waits on
+    pub must_break: Option<String>,
 }
 
 pub(crate) fn tag_of(body: &[u8]) -> String {
@@ -495,24 +501,27 @@ impl ConnSim {
             outcomes: Vec::new(),
             sent: Vec::new(),
             raw_tail: Vec::new(),
+            must_break: None,
         }
     }
 
     fn outcome_string(&self, k: usize, res: Result<RawResponse, String>, ctx: &mut Ctx) -> String {
         match res {
             Ok(resp) => {
-                // ORACLE: the body handed to request k is the body the server sent, in full, on the stream that
-                // carried request k, and it is request k's own tag
-                let own = (k as u64).to_be_bytes();
-                if resp.body != own {
+                // ORACLE: the frame handed to request k is a frame the server sent, in full, in answer to the
+                // request frame carrying k's tag (on the stream that frame arrived with) — and no other
+                let own = (k as u64).to_be_bytes().to_vec();
+                if !self
+                    .sent
+                    .iter()
+                    .any(|(to, s, b)| to.as_ref() == Some(&own) && *s == resp.stream && *b == resp.body)
+                {
                     ctx.fail(format!(
-                        "request {} completed with the response body of another request or a foreign frame: {}",
+                        "request {} completed with a frame the server did not send in answer to it (stream {}, body {})",
                         k,
+                        resp.stream,
                         tag_of(&resp.body)
                     ));
-                }
-                if !self.sent.iter().any(|(s, b)| *s == resp.stream && *b == resp.body) {
-                    ctx.fail(format!("request {} was handed a body the server never sent in full on stream {}", k, resp.stream));
                 }
                 format!("ok:{}", tag_of(&resp.body))
             }
@@ -625,10 +634,8 @@ impl ConnSim {
             }
             let frame: Vec<u8> = self.raw_tail.drain(..9 + len).collect();
             let stream = i16::from_be_bytes([frame[2], frame[3]]);
-            self.sent.push((stream, frame[9..].to_vec()));
-            if let Some(i) = self.unanswered.iter().position(|(s, _)| *s == stream) {
-                self.unanswered.remove(i);
-            }
+            let to = self.unanswered.iter().position(|(s, _)| *s == stream).map(|i| self.unanswered.remove(i).1);
+            self.sent.push((to, stream, frame[9..].to_vec()));
         }
     }
 
@@ -653,7 +660,9 @@ impl ConnSim {
                     }
                     'G' => self.set_gate(false),
                     _ => {
-                        self.server = None;
+                        if self.server.take().is_some() && self.broken.is_none() {
+                            self.must_break = Some("the server closed the connection".to_owned());
+                        }
                     }
                 }
                 self.settle(ctx).await;
@@ -690,17 +699,21 @@ impl ConnSim {
                 if self.unanswered.iter().any(|(st, _)| *st == s) {
                     return true;
                 }
-                if self.gate_closed() && (s as usize) < self.futures.len() {
+                if self.gate_closed() && s < 1000 {
                     return true; // might be allocated to a frame the server has not seen: not "unsolicited"
                 }
-                self.sent.push((s, body.to_vec()));
+                self.sent.push((None, s, body.to_vec()));
+                if self.broken.is_none() {
+                    self.must_break = Some(format!("the server sent a frame on stream {} that nobody waits on", s));
+                }
                 self.server_write(&response_frame(s, &body)).await;
                 self.settle(ctx).await;
                 true
             }
-            'c' | 'p' | 'r' => {
+            'c' | 'p' | 'r' | 't' => {
                 let Ok(n) = arg.parse::<usize>() else { return false };
                 match c {
+                    't' => tokio::time::advance(Duration::from_millis(n as u64)).await,
                     'c' => self.cancel(n),
                     'p' => self.poll_req(n, ctx),
                     _ => {
@@ -709,7 +722,7 @@ impl ConnSim {
                         }
                         if n < self.unanswered.len() {
                             let (s, body) = self.unanswered.remove(n);
-                            self.sent.push((s, body.clone()));
+                            self.sent.push((Some(body.clone()), s, body.clone()));
                             self.server_write(&response_frame(s, &body)).await;
                         } else {
                             return true;
@@ -733,6 +746,34 @@ impl ConnSim {
             self.poll_req(k, ctx);
         }
         self.poll_broken();
+        // ORACLE (C10): the peer closed / sent an unsolicited frame ⇒ the connection is reported broken; and once
+        // it is broken no request is left hanging
+        if let (Some(why), None) = (&self.must_break, &self.broken) {
+            ctx.fail(format!("{} but the connection was not broken", why));
+        }
+        if self.broken.is_some() {
+            for (k, o) in self.outcomes.iter().enumerate() {
+                if o.is_none() {
+                    ctx.fail(format!("request {} still pending after the connection broke", k));
+                }
+            }
+        }
+        // ORACLE: a request whose answer the server sent in full on the stream that carried it, that was not
+        // abandoned, on a connection that did not break, has completed with that answer
+        if self.broken.is_none() {
+            for (k, o) in self.outcomes.iter().enumerate() {
+                let own = (k as u64).to_be_bytes().to_vec();
+                if let Some((_, _, body)) = self.sent.iter().find(|(to, _, _)| to.as_ref() == Some(&own)) {
+                    let want = format!("ok:{}", tag_of(body));
+                    if o.as_deref() != Some("cancelled") && o.as_deref() != Some(&want) {
+                        ctx.fail(format!(
+                            "request {} was answered by the server but ended as {:?} on a healthy connection",
+                            k, o
+                        ));
+                    }
+                }
+            }
+        }
         let mut parts: Vec<String> = Vec::new();
         for (k, o) in self.outcomes.iter().enumerate() {
             parts.push(format!("{}={}", k, o.clone().unwrap_or_else(|| "pending".to_owned())));
